@@ -156,6 +156,33 @@ func init() {
 			bad := c.nondet("yamldecode")
 			return Ite(bad, e.libErr("yaml:decode"), NilIface)
 		}
+		// ---------------- bufio.Scanner with the default line splitter ----------------
+		// The text is seen as lineCount(text) lines lineAt(text, 0..); Scan steps
+		// through them.  (Trusted: ScanLines semantics; the relation between the
+		// text and its lines is left abstract except that an empty text has none.)
+		m["bufio.NewScanner"] = func(c *CallCtx) *Term {
+			text, _ := e.drain(c, c.args[0])
+			l := e.allocLoc(c.st)
+			e.ghostSet(c.st, "scanText", StringS, l, text)
+			e.ghostSet(c.st, "scanIdx", IntS, l, IntT(0))
+			e.ghostSet(c.st, "scanTok", StringS, l, StrT(""))
+			n := uf("lineCount", IntS, text)
+			e.axiom(Ge(n, IntT(0)))
+			e.axiom(Implies(Eq(text, StrT("")), Eq(n, IntT(0))))
+			return l
+		}
+		m["(*bufio.Scanner).Scan"] = func(c *CallCtx) *Term {
+			l := c.args[0]
+			text := e.ghostGet(c.st, "scanText", StringS, l)
+			idx := e.ghostGet(c.st, "scanIdx", IntS, l)
+			n := uf("lineCount", IntS, text)
+			more := Lt(idx, n)
+			e.ghostSet(c.st, "scanTok", StringS, l, Ite(more, uf("lineAt", StringS, text, idx), StrT("")))
+			e.ghostSet(c.st, "scanIdx", IntS, l, Ite(more, Add(idx, IntT(1)), idx))
+			return more
+		}
+		m["(*bufio.Scanner).Bytes"] = func(c *CallCtx) *Term { return e.ghostGet(c.st, "scanTok", StringS, c.args[0]) }
+		m["(*bufio.Scanner).Text"] = m["(*bufio.Scanner).Bytes"]
 		m["(*os.File).Write"] = func(c *CallCtx) *Term {
 			// only os.Stderr is written by the code in scope (deprecation notices)
 			return c.ret(StrLen(c.args[1]), NilIface)
